@@ -1,6 +1,6 @@
 (* C14 - Transactions survive DSL and JSON round trips.  Statements only. *)
 From Coq Require Import ZArith NArith List Bool Ascii String Lia.
-Require Import CGT.Model.Date CGT.Model.Dsl CGT.Proofs.DslFacts CGT.Proofs.DecFacts CGT.Proofs.DslRound.
+Require Import CGT.Model.Date CGT.Model.Dsl CGT.Model.Json CGT.Proofs.DslFacts CGT.Proofs.DecFacts CGT.Proofs.DslRound CGT.Proofs.JsonRound CGT.Generated.JsonSchema.
 Import ListNotations.
 Open Scope N_scope.
 
@@ -63,3 +63,65 @@ Proof.
   split; [|split; [vm_compute; reflexivity|discriminate]].
   repeat constructor; try reflexivity; try discriminate; cbn; try lia; assumption.
 Qed.
+
+(* The JSON round trip, for transaction lists of any length: every transaction with a valid date in years 0..9999, an
+   ASCII ticker without lower-case letters, decimals within 96 bits and 28 places, positive quantities and ratios and
+   currency codes the table accepts is read back from the tree the serialiser writes EXACTLY - the currency label of a
+   zero fee or tax included (the JSON writer always writes the {amount, currency} object).  The tree <-> text layer is
+   serde_json's and is outside the model. *)
+Theorem C14_json_roundtrip : forall (valid_cur : text -> bool) (ts : list dtxn),
+  Forall (jwf_txn valid_cur) ts -> read_txns valid_cur (map to_json ts) = JOk ts.
+Proof. exact json_list_roundtrip. Qed.
+Print Assumptions C14_json_roundtrip.
+Theorem C14_json_one : forall (valid_cur : text -> bool) (t : dtxn), jwf_txn valid_cur t -> read_txn valid_cur (to_json t) = JOk t.
+Proof. exact json_roundtrip. Qed.
+Print Assumptions C14_json_one.
+
+(* hence the two renderings of one list are read back to the same transactions up to that zero label, so the reports
+   computed from them are computed from the same data *)
+Theorem C14_dsl_and_json_agree : forall (valid_cur : text -> bool) (ts : list dtxn),
+  Forall (wf_txn valid_cur) ts -> Forall (jwf_txn valid_cur) ts ->
+  exists back, read_txns valid_cur (map to_json ts) = JOk back /\ parse valid_cur (print_txns ts) = inr (map norm_txn back).
+Proof. intros vc ts H1 H2. exists ts. split; [exact (json_list_roundtrip vc ts H2)|exact (parse_print vc ts H1)]. Qed.
+Print Assumptions C14_dsl_and_json_agree.
+
+(* non-vacuity: the same three transactions meet the JSON hypotheses too, and the zero dividend tax keeps its USD label *)
+Example C14_json_applies : Forall (jwf_txn (fun _ => true)) c14_ex /\ read_txns (fun _ => true) (map to_json c14_ex) = JOk c14_ex.
+Proof.
+  split; [|vm_compute; reflexivity].
+  repeat constructor; try reflexivity; try discriminate; cbn; lia.
+Qed.
+(* the reader's positivity check is live: a zero quantity is refused *)
+Example C14_json_refuses_zero :
+  read_txn (fun _ => true) (to_json {| x_date := {| dy := 2024; dm := 2; dd := 29 |}; x_tick := T "X";
+     x_op := DBuy dec0 {| m_amt := dec0; m_cur := GBP |} {| m_amt := dec0; m_cur := GBP |} |}) = JReject.
+Proof. vm_compute. reflexivity. Qed.
+
+(* The keys of the JSON model are those the serde attributes declare: coq/Generated/JsonSchema.v is rewritten from models.rs and amount.rs
+   on every run (the tag, the fields beside the flattened operation, every variant's action name and fields in declaration order with
+   their #[serde(default)] marks, the two keys CurrencyAmount writes); a renamed key, a new or dropped field or default breaks this theorem. *)
+Definition c14_m0 : money := {| m_amt := dec0; m_cur := GBP |}.
+Definition c14_ops : list dop :=
+  [DBuy dec0 c14_m0 c14_m0; DSell dec0 c14_m0 c14_m0; DDividend c14_m0 c14_m0; DAccumulation dec0 c14_m0 c14_m0;
+   DCapReturn dec0 c14_m0 c14_m0; DSplit dec0; DUnsplit dec0].
+Theorem C14_json_schema :
+  map (fun o => T g_json_tag :: map (fun f => T (fst f)) (snd o)) g_json_ops = map (fun o => map fst (j_op o)) c14_ops /\
+  map (fun o => Some (JStr (T (fst o)))) g_json_ops = map (fun o => jlookup K_ACTION (j_op o)) c14_ops /\
+  map (fun o => existsb snd (snd o)) g_json_ops = map has_optional c14_ops /\
+  map (fun o => map snd (removelast (snd o))) g_json_ops = map (fun o => map (fun _ => false) (removelast (snd o))) g_json_ops /\
+  map T g_json_txn_fields = [K_DATE; K_TICKER] /\ map T g_json_money_fields = [K_AMOUNT; K_CURRENCY] /\
+  (forall t, exists rest, to_json t = JObj ((K_DATE, JStr (print_date (x_date t))) :: (K_TICKER, JStr (x_tick t)) :: rest)) /\
+  (forall m, exists a c, j_money m = JObj [(K_AMOUNT, a); (K_CURRENCY, c)]).
+Proof.
+  repeat split; try reflexivity.
+  - intros t. eexists. reflexivity.
+  - intros m. eexists. eexists. reflexivity.
+Qed.
+Print Assumptions C14_json_schema.
+(* and the defaults mean what the reader model does with an absent key: the only optional field of a variant is its last, and without it
+   the transaction reads back with zero pounds there *)
+Theorem C14_json_optional_default : forall (valid_cur : text -> bool) (t : dtxn), jwf_txn valid_cur t -> has_optional (x_op t) = true ->
+  read_txn valid_cur (JObj ((K_DATE, JStr (print_date (x_date t))) :: (K_TICKER, JStr (x_tick t)) :: removelast (j_op (x_op t)))) =
+  JOk {| x_date := x_date t; x_tick := x_tick t; x_op := without_optional (x_op t) |}.
+Proof. exact json_optional_default. Qed.
+Print Assumptions C14_json_optional_default.
